@@ -187,10 +187,22 @@ func genDocBig(r *prng.Rand, formatText bool, maxTop int, big bool) Doc {
 			w := model.NewSeq(kind, v)
 			if r.Chance(1, 3) {
 				sib := model.NewInt(int64(d))
+				if r.Bool() {
+					// a sibling container of another kind than the one that holds the buried value
+					sk := []model.Kind{model.List, model.Sexp, model.Struct}[r.Intn(3)]
+					sib = model.NewSeq(sk, model.NewInt(int64(d)))
+					if sk == model.Struct {
+						sib.Kids[0].Field = &model.Sym{Text: "q", HasText: true}
+					}
+				}
 				if kind == model.Struct {
 					sib.Field = &model.Sym{Text: "z", HasText: true}
 				}
-				w.Kids = append(w.Kids, sib)
+				if r.Bool() {
+					w.Kids = append(w.Kids, sib)
+				} else {
+					w.Kids = append([]*model.Value{sib}, w.Kids...)
+				}
 			}
 			v = w
 		}
